@@ -9,6 +9,11 @@ Transforms (all purely syntactic and semantics-preserving for this package):
   logging      add ``import logging`` + a module logger and a debug call as first statement of every function
   yieldfrom    ``for x in it: yield x`` -> ``yield from it``
   fstring      '...{}...'.format(a, b) with plain positional fields -> f-string
+  kwargs       positional arguments (after the first) of calls that resolve to a package function / class become keyword arguments
+  cachelocal   in every method, a ``self.<field>`` read at least twice, where <field> is only ever assigned in constructors
+               (and is no method / property / class attribute), is read once into a local at the top of the method
+  structconst  struct.pack('<fmt>', ...) / struct.unpack('<fmt>', x) -> a module-level precompiled struct.Struct constant
+  boolwrap     ``if x:`` / ``while x:`` on a name or attribute -> ``if bool(x):``
 """
 import ast, copy, os, shutil, sys
 
@@ -192,8 +197,205 @@ class TmpVar(ast.NodeTransformer):
         return node
 
 
+def _package_index():
+    """(signatures, final fields): {(module, name): [positional parameter names]} for module-level functions and classes with
+    an own __init__ (no *args/**kwargs/keyword-only), module import aliases per module, and the instance fields that are only
+    assigned in __init__ methods and are not defined as anything at class level"""
+    sigs, imports, trees = {}, {}, {}
+    stored_outside, stored_init, class_level = set(), set(), set()
+    for fn in sorted(os.listdir(SRC)):
+        if not fn.endswith('.py'):
+            continue
+        mod = fn[:-3]
+        tree = ast.parse(open(os.path.join(SRC, fn)).read())
+        trees[mod] = tree
+        imp = {}
+        for st in tree.body:
+            if isinstance(st, ast.ImportFrom) and st.level >= 1 and st.module is None:
+                for a in st.names:
+                    imp[a.asname or a.name] = ('module', a.name)
+            elif isinstance(st, ast.ImportFrom) and (st.level >= 1 or (st.module or '').startswith('pynetdicom2')):
+                m2 = (st.module or '').split('.')[-1]
+                for a in st.names:
+                    imp[a.asname or a.name] = ('name', m2, a.name)
+        imports[mod] = imp
+
+        def sig(fdef, drop):
+            a = fdef.args
+            if a.vararg or a.kwarg or a.kwonlyargs or a.posonlyargs:
+                return None
+            if any(not isinstance(d, ast.Name) or d.id not in ('staticmethod',) for d in fdef.decorator_list):
+                return None
+            return [x.arg for x in a.args][drop:]
+        for st in tree.body:
+            if isinstance(st, ast.FunctionDef):
+                sg = sig(st, 0)
+                if sg is not None:
+                    sigs[(mod, st.name)] = sg
+            elif isinstance(st, ast.ClassDef):
+                for b in st.body:
+                    if isinstance(b, ast.FunctionDef):
+                        class_level.add(b.name)
+                        if b.name == '__init__':
+                            sg = sig(b, 1)
+                            if sg is not None:
+                                sigs[(mod, st.name)] = sg
+                    elif isinstance(b, (ast.Assign, ast.AnnAssign)):
+                        for t in (b.targets if isinstance(b, ast.Assign) else [b.target]):
+                            if isinstance(t, ast.Name):
+                                class_level.add(t.id)
+        for f in ast.walk(tree):
+            if isinstance(f, ast.FunctionDef):
+                for n in ast.walk(f):
+                    if isinstance(n, ast.Attribute) and isinstance(n.ctx, (ast.Store, ast.Del)):
+                        (stored_init if f.name == '__init__' and isinstance(n.value, ast.Name) and n.value.id == 'self'
+                         else stored_outside).add(n.attr)
+                    elif isinstance(n, ast.Call) and isinstance(n.func, ast.Name) and n.func.id in ('setattr', 'delattr'):
+                        stored_outside.add(n.args[1].value if len(n.args) > 1 and isinstance(n.args[1], ast.Constant) else '*')
+        for n in ast.walk(tree):
+            if isinstance(n, ast.Attribute) and isinstance(n.ctx, (ast.Store, ast.Del)) and not any(
+                    True for _ in ()):
+                pass
+    final = {a for a in stored_init if a not in stored_outside and a not in class_level}
+    return sigs, imports, final
+
+
+class KwArgs(ast.NodeTransformer):
+    def __init__(self, mod, sigs, imports):
+        self.mod, self.sigs, self.imp = mod, sigs, imports.get(mod, {})
+        self.local_stack = []
+
+    def visit_FunctionDef(self, node):
+        bound = {a.arg for a in node.args.args} | {n.id for n in ast.walk(node) if isinstance(n, ast.Name) and isinstance(n.ctx, ast.Store)}
+        self.local_stack.append(bound)
+        self.generic_visit(node)
+        self.local_stack.pop()
+        return node
+
+    def _sig(self, fn):
+        shadow = set().union(*self.local_stack) if self.local_stack else set()
+        if isinstance(fn, ast.Name):
+            if fn.id in shadow:
+                return None
+            if (self.mod, fn.id) in self.sigs:
+                return self.sigs[(self.mod, fn.id)]
+            i = self.imp.get(fn.id)
+            if i and i[0] == 'name':
+                return self.sigs.get((i[1], i[2]))
+        elif isinstance(fn, ast.Attribute) and isinstance(fn.value, ast.Name) and fn.value.id not in shadow:
+            i = self.imp.get(fn.value.id)
+            if i and i[0] == 'module':
+                return self.sigs.get((i[1], fn.attr))
+        return None
+
+    def visit_Call(self, node):
+        self.generic_visit(node)
+        sg = self._sig(node.func)
+        if sg is None or any(isinstance(a, ast.Starred) for a in node.args) or any(k.arg is None for k in node.keywords):
+            return node
+        if len(node.args) < 2 or len(node.args) > len(sg):
+            return node
+        extra = [ast.keyword(arg=sg[i], value=a) for i, a in enumerate(node.args) if i >= 1]
+        node.args = node.args[:1]
+        node.keywords = extra + node.keywords
+        return node
+
+
+class CacheLocal(ast.NodeTransformer):
+    def __init__(self, final):
+        self.final = final
+
+    def visit_ClassDef(self, node):
+        for i, b in enumerate(node.body):
+            if isinstance(b, ast.FunctionDef) and b.name != '__init__' and b.args.args and b.args.args[0].arg == 'self' \
+                    and not b.decorator_list:
+                self._method(b)
+        return node
+
+    def _method(self, f):
+        own = []
+
+        def walk(n):
+            for ch in ast.iter_child_nodes(n):
+                if isinstance(ch, (ast.FunctionDef, ast.Lambda, ast.ClassDef, ast.GeneratorExp)):
+                    continue
+                own.append(ch)
+                walk(ch)
+        walk(f)
+        if any(isinstance(n, ast.Name) and n.id == 'self' and isinstance(n.ctx, ast.Store) for n in own):
+            return
+        reads = {}
+        for n in own:
+            if isinstance(n, ast.Attribute) and isinstance(n.ctx, ast.Load) and isinstance(n.value, ast.Name) and n.value.id == 'self' \
+                    and n.attr in self.final:
+                reads.setdefault(n.attr, []).append(n)
+        names = {n.id for n in ast.walk(f) if isinstance(n, ast.Name)} | {a.arg for a in f.args.args}
+        pre = []
+        for attr, nodes in sorted(reads.items()):
+            if len(nodes) < 2:
+                continue
+            loc = attr.lstrip('_') + '_cached'
+            if loc in names:
+                continue
+            pre.append(ast.Assign(targets=[ast.Name(id=loc, ctx=ast.Store())],
+                                  value=ast.Attribute(value=ast.Name(id='self', ctx=ast.Load()), attr=attr, ctx=ast.Load())))
+            ids = {id(n) for n in nodes}
+
+            class R(ast.NodeTransformer):
+                def visit_FunctionDef(self_, n):
+                    return n if n is not f else self_.generic_visit(n)
+
+                def visit_Lambda(self_, n):
+                    return n
+
+                def visit_GeneratorExp(self_, n):
+                    return n
+
+                def visit_Attribute(self_, n):
+                    if id(n) in ids:
+                        return ast.Name(id=loc, ctx=ast.Load())
+                    return self_.generic_visit(n)
+            R().visit(f)
+        if pre:
+            i = 1 if f.body and isinstance(f.body[0], ast.Expr) and isinstance(f.body[0].value, ast.Constant) else 0
+            f.body[i:i] = pre
+
+
+class StructConst(ast.NodeTransformer):
+    def __init__(self):
+        self.consts = {}
+
+    def visit_Call(self, node):
+        self.generic_visit(node)
+        fn = node.func
+        if isinstance(fn, ast.Attribute) and isinstance(fn.value, ast.Name) and fn.value.id == 'struct' \
+                and fn.attr in ('pack', 'unpack') and node.args and isinstance(node.args[0], ast.Constant) \
+                and isinstance(node.args[0].value, str) and not node.keywords:
+            fmt = node.args[0].value
+            name = self.consts.setdefault(fmt, '_MECH_STRUCT_%d' % len(self.consts))
+            return ast.Call(func=ast.Attribute(value=ast.Name(id=name, ctx=ast.Load()), attr=fn.attr, ctx=ast.Load()),
+                            args=node.args[1:], keywords=[])
+        return node
+
+
+class BoolWrap(ast.NodeTransformer):
+    def _wrap(self, t):
+        if isinstance(t, (ast.Name, ast.Attribute)):
+            return ast.Call(func=ast.Name(id='bool', ctx=ast.Load()), args=[t], keywords=[])
+        if isinstance(t, ast.UnaryOp) and isinstance(t.op, ast.Not):
+            t.operand = self._wrap(t.operand)
+        return t
+
+    def visit_If(self, node):
+        self.generic_visit(node)
+        node.test = self._wrap(node.test)
+        return node
+    visit_While = visit_If
+
+
 def main():
     tr, out = sys.argv[1], sys.argv[2]
+    index = _package_index() if tr in ('kwargs', 'cachelocal', 'all2') else None
     dst = os.path.join(out, 'pynetdicom2')
     if os.path.exists(dst):
         shutil.rmtree(dst)
@@ -229,6 +431,25 @@ def main():
             tree = AugExpand().visit(tree)
         elif tr == 'tmpvar':
             tree = TmpVar().visit(tree)
+        elif tr == 'kwargs':
+            tree = KwArgs(fn[:-3], index[0], index[1]).visit(tree)
+        elif tr == 'cachelocal':
+            tree = CacheLocal(index[2]).visit(tree)
+        elif tr in ('structconst', 'all2'):
+            if tr == 'all2':
+                tree = KwArgs(fn[:-3], index[0], index[1]).visit(tree)
+                tree = CacheLocal(index[2]).visit(tree)
+                tree = BoolWrap().visit(tree)
+            sc = StructConst()
+            tree = sc.visit(tree)
+            if sc.consts:
+                i = max(k for k, st in enumerate(tree.body) if isinstance(st, (ast.Import, ast.ImportFrom))) + 1
+                tree.body[i:i] = [ast.Assign(targets=[ast.Name(id=nm, ctx=ast.Store())],
+                                             value=ast.Call(func=ast.Attribute(value=ast.Name(id='struct', ctx=ast.Load()), attr='Struct', ctx=ast.Load()),
+                                                            args=[ast.Constant(value=fmt)], keywords=[]))
+                                  for fmt, nm in sc.consts.items()]
+        elif tr == 'boolwrap':
+            tree = BoolWrap().visit(tree)
         elif tr == 'all':
             for T in (Rename, SwapEq, FlipIf, ElseReturn, IfExpForm, YieldFrom, FString, TmpVar):
                 tree = T().visit(tree)
